@@ -87,7 +87,12 @@ func oracleChangeSets() Oracle {
 						return viol("changeset", "TraverseStateChanges(%d,%d) delivered versions %v (not strictly ascending)", start, end, got)
 					}
 					if v < start || v > end || !m.Has(v) {
-						return viol("changeset", "TraverseStateChanges(%d,%d) delivered version %d (retained %v)", start, end, v, m.Versions())
+						vv := viol("changeset", "TraverseStateChanges(%d,%d) delivered version %d (retained %v)", start, end, v, m.Versions())
+						if v >= start && v <= end {
+							// a version that is not retained is treated as present: the violation names that version
+							vv.Oracle, vv.OpVer = "changeset/phantom", v
+						}
+						return vv
 					}
 				}
 				for _, v := range m.Versions() {
